@@ -445,6 +445,13 @@ def systematic_cases():
                 for pre, post in ((b"a", b"b"), (b"", b""), (b"<b>", b"</b>"), (b"<b>x</b>\xc3\xa9", b"&amp;"), (b"<x>", b"<"), (b"&", b";")):
                     cases.append("C %s %s" % (f, hexs(pre + seq + post)))
         cases.append("C 111:%s:63 - %s - - %s" % (hx(enc), tags, hexs(b"a\xf4\x90\x80\x80b\xffc")))
+        # C0 / DEL / C1 edge characters, singly, first-in-text, and before another invalid byte (both replacement settings)
+        edge = [bytes([b]) for b in list(range(0x20)) + [0x7F]] + [bytes([0xC2, b]) for b in range(0x80, 0xA0)] + [b"\xc2\xa0", b" ", b"~"]
+        for repl in (0, 63):
+            f = "111:%s:%d - %s - -" % (hx(enc), repl, tags)
+            for e in edge:
+                for pre, post in ((b"", b""), (b"", b"abc"), (b"ab", b"cd"), (b"<b>", b"</b>"), (b"a", b"\xff"), (b"\xc3\xa9", b"<")):
+                    cases.append("C %s %s" % (f, hexs(pre + e + post)))
     return cases
 
 
@@ -761,6 +768,8 @@ def main():
     thorough = c.tier == "thorough"
 
     c.translate("c04.py")
+    if os.path.exists(os.path.join(ROOT, "translate", "c14.py")):
+        c.translate("c14.py")      # LemUtf8/Props import Cppcms.C14: re-derive its Gen.lean from the same tree
     proved = c.prove(["Cppcms.C04.Props"], OBLIGATIONS, exe="c04_model")
     if thorough and proved:
         c.leanchecker(["Cppcms.C04.Props"])
